@@ -59,7 +59,7 @@ def rules(t):
 
     r = RuleResult("C05.a5", "host list check when secure -> Err(NotInHostList)", floor=1)
     sec = [b for b in t.branches(h) if b["kind"] == "bool" and t.is_field(b["raw"], "secure")]
-    cl = [g for g in t.fns(r"^renetcode::server::NetcodeServer::handle_connection_request::\{closure")]
+    cl = [g for g in fn_and_closures(t, h) if g is not h]      # closures created in the function, including those of private helpers inlined into it
     # "hit" edges: the token lists one of this server's public addresses
     hits = []
     for br in t.find_callcond(h, r"Iterator::any$|::any$"):
@@ -271,4 +271,11 @@ def rules(t, *a, **kw):
     out = _rules_C05_w5d(t, *a, **kw)
     out.append(W5.request_fields_prov(t, "C05.j"))
     out.append(W5.token_history_writers(t, "C05.k"))
+    return out
+
+_rules_C05_w7 = rules
+def rules(t, *a, **kw):
+    import rules.wave7 as W7
+    out = _rules_C05_w7(t, *a, **kw)
+    out.append(W7.matched_entry_untouched(t, "C05.l"))
     return out
